@@ -10,6 +10,7 @@ import json
 import os
 import random
 import subprocess
+import threading
 import re
 import time
 from concurrent.futures import ThreadPoolExecutor
@@ -23,7 +24,8 @@ from vlib import ToolError, log, WORK
 PUPPETS = ["scope5", "rec6"]
 CLASSES = {"out_of_scope_variable_listed", "sibling_block_variable_listed", "declared_later_listed",
            "in_scope_variable_missing", "shadowed_name_resolves_to_outer", "wrong_frame_value", "wrong_value",
-           "wrong_register", "query_failed", "value_from_callers_frame_base"}
+           "wrong_register", "query_failed", "value_from_callers_frame_base",
+           "location_list_end_inclusive"}
 STEP_CMDS = {"stepi", "step", "next", "finish"}
 QUICK = dict(builds=[("1.89", 0, True)], maxcmd=14, maxbps=2, ncands=4, nhist=7, mc="ScopeMC_q.cfg", session_e=0)
 THOROUGH = dict(builds=[(tc, o, True) for tc in ("1.89", "1.95", "nightly") for o in (0, 1)],
@@ -162,6 +164,7 @@ def gen_histories(s, cands, cfg, seed):
 # the real debugger
 # ------------------------------------------------------------------------------------------
 _DRV = []
+_LOCK = threading.Lock()
 
 
 def driver():
@@ -255,7 +258,7 @@ def judge(s, events, tag):
 
 
 def run_and_judge(s, scripts, tag):
-    par = int(os.environ.get("VERIF_PAR", "6"))
+    par = int(os.environ.get("VERIF_PAR", "4"))
     driver()
     t0 = time.time()
     with ThreadPoolExecutor(max_workers=par) as ex:
@@ -302,6 +305,14 @@ def first_die_value(s, ev, v):
 # ------------------------------------------------------------------------------------------
 def process(rep, s, scripts, tag, acc):
     viol, stats, batch, spans = run_and_judge(s, scripts, tag)
+    _LOCK.acquire()
+    try:
+        return _account(rep, s, acc, viol, stats, spans)
+    finally:
+        _LOCK.release()
+
+
+def _account(rep, s, acc, viol, stats, spans):
     owner = {}
     for n, (sc, evs, info, a, b) in enumerate(spans):
         for e in evs:
@@ -345,35 +356,53 @@ def run(rep, tier, replay):
         return rep.finish("model_checking", {"states": 1, "transitions": 1, "traces_validated_against_impl": 1,
                                              "observations_judged": acc["stats"].get("judged", 0),
                                              "samples": [[c["cmd"] for c in rec["script"]["cmds"]]]})
-    r, pred = model_check_operators(cfg["mc"], workers)
-    states, trans = r.distinct, r.generated
-    log(f"[c19] ScopeMC {cfg['mc']}: {r.distinct} trees/states, {r.generated} transitions, {r.wall:.0f}s; "
-        f"design-level 'first valid DIE wins' vs Resolve: {pred}")
+    # development-only switches (mutant runs): restrict the build matrix / skip the operator model check
+    if os.environ.get("VERIF_C19_BUILDS"):
+        cfg = dict(cfg, builds=[(b.split(":")[0], int(b.split(":")[1]), True) for b in os.environ["VERIF_C19_BUILDS"].split(",")])
     samples, per = [], {}
-    pairs_total = 0
-    for name in PUPPETS:
-        src = sesslib.SESS_SRC / f"{name}.rs"
-        for b in cfg["builds"]:
-            s = Subject(src, b)
-            cands = pick_cands(s, cfg["ncands"], rng)
-            if cfg["session_e"] and b == cfg["builds"][0]:
-                re_ = session_model_check(s, cands, cfg["session_e"], cfg["maxbps"], workers)
-                states += re_.distinct
-                trans += re_.generated
-            hists, npairs, rg = gen_histories(s, cands, cfg, vlib.seed())
-            trans += rg.generated
-            pairs_total += npairs
-            if not hists:
-                raise ToolError(f"{s.p.key}: TLC generated no usable history")
-            scripts = [s.script([{k: v for k, v in c.items() if k != "at"} for c in h]) for h in hists]
-            st = process(rep, s, scripts, f"C19-{s.p.key}", acc)
-            per[s.p.key] = st
-            # vacuity per build: something was judged, in outer frames too, and values were compared
-            if st["judged"] == 0 or st["outer"] == 0 or st["values"] == 0:
-                raise ToolError(f"{s.p.key}: vacuous run (judged={st['judged']} outer={st['outer']} values={st['values']})")
-            if len(samples) < 4:
-                samples.append({"puppet": s.p.key, "cmds": [c["cmd"] + (":%x" % c["addr"] if "addr" in c else "") +
-                                                           (":%d" % c["k"] if "k" in c else "") for c in scripts[0]["cmds"]]})
+    pairs = []
+    extra_states = []
+    vlib.cargo_build("reftrace")
+    driver()
+
+    def one(name, b):
+        s = Subject(sesslib.SESS_SRC / f"{name}.rs", b)
+        cands = pick_cands(s, cfg["ncands"], random.Random(vlib.seed()))
+        if cfg["session_e"] and b == cfg["builds"][0]:
+            re_ = session_model_check(s, cands, cfg["session_e"], cfg["maxbps"], max(1, workers // 2))
+            extra_states.append((re_.distinct, re_.generated))
+        hists, npairs, rg = gen_histories(s, cands, cfg, vlib.seed())
+        extra_states.append((0, rg.generated))
+        pairs.append(npairs)
+        if not hists:
+            raise ToolError(f"{s.p.key}: TLC generated no usable history")
+        scripts = [s.script([{k: v for k, v in c.items() if k != "at"} for c in h]) for h in hists]
+        st = process(rep, s, scripts, f"C19-{s.p.key}", acc)
+        per[s.p.key] = st
+        # vacuity per build: something was judged, in outer frames too, and values were compared
+        if st["judged"] == 0 or st["outer"] == 0 or st["values"] == 0:
+            raise ToolError(f"{s.p.key}: vacuous run (judged={st['judged']} outer={st['outer']} values={st['values']})")
+        samples.append({"puppet": s.p.key, "cmds": [c["cmd"] + (":%x" % c["addr"] if "addr" in c else "") +
+                                                   (":%d" % c["k"] if "k" in c else "") for c in scripts[0]["cmds"]]})
+
+    def mc():
+        r, pred = model_check_operators(cfg["mc"], workers)
+        log(f"[c19] ScopeMC {cfg['mc']}: {r.distinct} trees/states, {r.generated} transitions, {r.wall:.0f}s; "
+            f"design-level 'first valid DIE wins' vs Resolve: {pred}")
+        return r.distinct, r.generated, pred
+
+    # the operator model check and the per-build pipelines (TLC generate -> real debugger -> TLC judge) are independent
+    jobs = int(os.environ.get("VERIF_C19_JOBS", "3"))
+    with ThreadPoolExecutor(max_workers=jobs) as ex:
+        fmc = None if os.environ.get("VERIF_C19_SKIP_MC") else ex.submit(mc)
+        futs = [ex.submit(one, name, b) for name in PUPPETS for b in cfg["builds"]]
+        for f in futs:
+            f.result()
+        states, trans, pred = fmc.result() if fmc else (0, 0, "skipped")
+    states += sum(x for x, _ in extra_states)
+    trans += sum(y for _, y in extra_states)
+    pairs_total = sum(pairs)
+    samples = sorted(samples, key=lambda x: x["puppet"])[:4]
     st = acc["stats"]
     if st.get("shadow", 0) == 0 or st.get("recur", 0) == 0:
         raise ToolError(f"vacuous run: no judged position had shadowed bindings / recursive activations ({st})")
